@@ -11,6 +11,10 @@ from . import klib, kspecs, build
 from .common import rng
 
 
+# kernels that accumulate floating point sums in an OpenMP reduction: combination order depends on the schedule
+FLOAT_REDUCTIONS = {"array_mean_var_cut", "array_mean_var_msk", "array_stats", "frelon_lines", "frelon_lines_sub"}
+
+
 def call_args(spec, ptrs):
     args = []
     bi = 0
@@ -75,6 +79,8 @@ def main():
                 out["violations"].append(dict(key="harness:generator", what="generator %s failed: %s" % (gen.__name__, e), replay={}))
                 continue
             for spec in specs:
+                if cfg.get("only") and spec["fn"] not in cfg["only"]:
+                    continue
                 bufs = [a for a in spec["args"] if isinstance(a, kspecs.Buf)]
                 desc = describe(spec)
                 out["kernels"][spec["fn"]] = out["kernels"].get(spec["fn"], 0) + 1
@@ -108,6 +114,7 @@ def main():
                         for b in bufs:
                             libc.free(b._p)
                 elif mode == "vrt":
+                    first_result = None
                     for (nt, sch) in cfg["threads"]:
                         arrs = [b.arr.copy() for b in bufs]
                         sseed = int(r.integers(1, 2 ** 62))
@@ -116,9 +123,37 @@ def main():
                         for b, a in zip(bufs, arrs):
                             rights = klib.R if b.role == "in" else klib.RW
                             regs.append(v.region(b.name, a, rights, track=b.role in ("out", "scratch")))
-                        f(*call_args(spec, [a.ctypes.data for a in arrs]))
+                        rv = f(*call_args(spec, [a.ctypes.data for a in arrs]))
                         st = v.stats()
                         count("vrt_calls")
+                        # schedule determinism: outputs under every controlled schedule / thread count must equal
+                        # the sequential single-thread result (float reductions: to rounding)
+                        snap = [(b.name, a.copy()) for b, a in zip(bufs, arrs)
+                                if b.role == "inout" or (b.role == "out" and b.full)]
+                        if first_result is None:
+                            first_result = (rv, snap)
+                        else:
+                            count("schedule_determinism_comparisons")
+                            fr = spec["fn"] in FLOAT_REDUCTIONS
+                            bad = None
+                            if not fr and rv != first_result[0] and not (rv != rv):
+                                bad = "return value %r vs %r" % (rv, first_result[0])
+                            for (nm, a), (_, a0) in zip(snap, first_result[1]):
+                                same = np.allclose(a, a0, rtol=1e-4, atol=1e-4, equal_nan=True) if fr else \
+                                    (a.tobytes() == a0.tobytes())
+                                if not same:
+                                    bad = "buffer %s" % nm
+                            if bad and not cfg.get("determinism_is_violation"):
+                                # not claimed by C20: recorded as an observation only
+                                out.setdefault("schedule_dependent_observed", {}).setdefault(spec["fn"], desc)
+                            elif bad:
+                                key = "schedule-dependent:%s" % spec["fn"]
+                                if key not in seen_keys:
+                                    seen_keys.add(key)
+                                    out["violations"].append(dict(
+                                        key=key, what="%s: result under a controlled schedule (threads %d, seed %d) differs from the "
+                                        "sequential single-thread result: %s; call %s" % (spec["fn"], nt, sseed, bad, desc),
+                                        replay=dict(replay, threads=nt, sched=sch, sched_seed=sseed)))
                         count("vrt_accesses_checked", st["accesses"])
                         count("vrt_switches", st["switches"])
                         if st["violations"]:
